@@ -38,7 +38,7 @@ def main():
     miss_first = sum(1 for r in rows if "| MISSED |" in r.rsplit("|", 3)[0] + "|")
     summary = "{} changes; first run: {} caught, {} missed; now: {} caught, {} missed.".format(
         n, sum(1 for k in first if first[k] == "caught"), sum(1 for k in first if first[k] != "caught"),
-        sum(1 for k in last if last[k] == "caught"), sum(1 for k in last if last[k] != "caught"))
+        sum(1 for k in last if last[k].startswith("caught")), sum(1 for k in last if not last[k].startswith("caught")))
     text = "\n".join(table) + "\n\n" + summary + "\n"
     p = os.path.join(HERE, "DESIGN.md")
     s = open(p).read()
